@@ -12,7 +12,7 @@
    - path parameters of a method name request fields; several messages of one topic are named. *)
 From Coq Require Import String List NArith Bool.
 From J5V.lib Require Import Outcome.
-From J5V.model Require Import J5sAst Desc J5sWalk J5sLink J5sConvert J5sContract.
+From J5V.model Require Import J5sAst Desc J5sWalk J5sLink J5sContract J5sSymbols.
 Import ListNotations.
 Local Open Scope N_scope.
 
@@ -192,12 +192,10 @@ Definition bundle_pkgs (bd : bundle) : list str := map bfile_pkg bd.
 
 (* no two declarations of a package generate the same proto symbol (message, field, enum, enum
    value - in the scope enclosing its enum -, service, method; the request / response / topic
-   message types in the .service / .topic sub-packages included) *)
+   message types in the .service / .topic sub-packages included): the list of declared symbols
+   (J5sSymbols, read off the source) has no duplicates *)
 Definition symbols_ok (bd : bundle) (pkg : str) : bool :=
-  match convert_package snake camel screaming bd pkg with
-  | Ok fs => nodup_str (package_symbols bd pkg fs)
-  | _ => true
-  end.
+  nodup_str (decl_package_symbols snake camel screaming bd pkg).
 
 (* the sub-package names are reserved *)
 Definition subpackages_free (bd : bundle) (pkg : str) : bool :=
